@@ -59,6 +59,7 @@ pub struct Monitors {
     /// C08: every payload that ever existed in the run, with its ledger coverage
     pub pool: Vec<(Rc<Payload>, BitSet, BitSet)>,
     pub sp: crate::special::SpecialState,
+    pub anchors: crate::anchors::AnchorState,
 }
 
 impl Monitors {
@@ -92,6 +93,7 @@ impl Monitors {
             shadow,
             pool: Vec::new(),
             sp: crate::special::SpecialState::new(cfg, nodes),
+            anchors: Default::default(),
         }
     }
 }
